@@ -259,6 +259,7 @@ def check_error_laws(w, rep):
             e = w.param(w.call(w.call(Q, "product", w.call(X, "inverse"), Xr), "log"))
             verdict(rep, "C15.error", "attitude_control: omega = kp . log(X^-1 X_r)", om, cm.ew(kp, e, cm.pmul), (), W, "attitude law is not the gain times log(X^-1 X_r) in that operand order")
             zero_at_equal(w, rep, "attitude_control", lambda a, b: f(kp, a, b), q, W)
+            nonzero_at_half_turn(w, rep, "attitude_control", lambda a, b: f(kp, a, b), W)
     f, mod = get_fn(w, rep, "cyecca.models.rdd2_loglinear", "derive_so3_attitude_control", "so3_attitude_control")
     if f is not None:
         W = w.where("cyecca.models.rdd2_loglinear", "derive_so3_attitude_control")
@@ -294,6 +295,7 @@ def check_error_laws(w, rep):
                 want = cm.matmul(cm.matmul(w.call(E, "left_jacobian"), cm.diag(kp)), w.param(E))
                 verdict(rep, "C15.error", "so3_attitude_control: omega = J_l(e) diag(kp) e, e = log(X^-1 X_r)", om, want, (), W, "log-linear attitude law is not J_l(e) K e")
             zero_at_equal(w, rep, "so3_attitude_control", lambda a, b: f(kp, a, b), q, W)
+            nonzero_at_half_turn(w, rep, "so3_attitude_control", lambda a, b: f(kp, a, b), W)
     f, mod = get_fn(w, rep, "cyecca.models.rdd2_loglinear", "derive_se23_error", "se23_error")
     if f is not None:
         W = w.where("cyecca.models.rdd2_loglinear", "derive_se23_error")
@@ -393,6 +395,27 @@ def check_law_sign_independence(w, rep):
                         rep.incomplete("C15.error", inst, "cannot decide: %s" % d, where=W)
             if allok:
                 rep.ok("C15.error", "%s does not depend on the sign of the reference quaternion" % name)
+
+
+def nonzero_at_half_turn(w, rep, name, call, W):
+    """The command is zero ONLY for equal attitudes: at the three half turns about the body axes (q = identity,
+    q_r = (0, e_i)) it must not vanish.  Constant propagation: a law that reads the error off R - R^T (zero for every
+    symmetric R, i.e. for every half turn) folds to the zero vector here, whatever coefficient multiplies it."""
+    one = cm.vertcat(1, 0, 0, 0)
+    for i in range(3):
+        qr = cm.vertcat(*[1 if j == i + 1 else 0 for j in range(4)])
+        inst = "%s: command does not vanish for a half-turn error about body axis %d" % (name, i)
+        ok, om = guarded(w, rep, "C15.error", inst, lambda: closed(w, call(one, qr)))
+        if not ok:
+            continue
+        verdicts = [decide(c, Poly()) for c in om.flat()]
+        if all(v == EQUAL for v in verdicts):
+            rep.fail("C15.error", inst, "with q = (1,0,0,0) and q_r = %s the commanded rate folds to exactly (0, 0, 0): the error of a 180 degree rotation is read as zero, the attitude loop has a second rest point "
+                     "(the error is taken from a quantity that vanishes for every symmetric rotation matrix)" % ([1 if j == i + 1 else 0 for j in range(4)],), where=W)
+        elif any(v == DIFFERENT for v in verdicts):
+            rep.ok("C15.error", inst, fact={"value": [short(c, 40) for c in om.flat()]})
+        else:
+            rep.na("C15.error", inst, "value at the half turn not decided by constant propagation: %s" % [short(c, 40) for c in om.flat()])
 
 
 def zero_at_equal(w, rep, name, call, q, W):
